@@ -285,6 +285,16 @@ func (pr *printer) exprLines(e Expr, ind, prefix, site string) {
 		if ifInlineable(x) && pr.lay.Choice("if-oneline", 2) == 0 {
 			break // inline below
 		}
+		if x.Else == nil && len(x.Elifs) == 0 && len(x.Then.Stmts) == 0 && prefix == "" && inlineOK(x.Then.Result) && inlineOK(x.Cond) {
+			// an else-less if whose body is one expression may stand on one line (`if c then f x`);
+			// the canonical layout does so for a third of them (chosen by the condition's text)
+			c := pr.inline(x.Cond, 0)
+			_, canon := pr.lay.(Canonical)
+			if _, isIf := x.Then.Result.(*If); !isIf && ((canon && len(c)%3 == 0) || (!canon && pr.lay.Choice("ifonly-oneline", 2) == 1)) {
+				pr.emit(ind, "if "+c+" then "+pr.inline(x.Then.Result, 0), "if")
+				return
+			}
+		}
 		tind := ind
 		if prefix != "" {
 			pr.emit(ind, strings.TrimRight(prefix, " "), site)
